@@ -860,6 +860,7 @@ func (c *Ctx) runInputs(kinds *core.Kinds) {
 		c.R.Add("INPUT", key+"|hangs-off-root-and-tracked", "inputBuilder", pos, edgeOK && tracked,
 			"each registered input gets exactly its edge to the input root and is recorded in the list of supplied inputs", fmt.Sprintf("root-edge=%v tracked=%v", edgeOK, tracked))
 	}
+	c.runConverterOptions()
 	// INPUT-C: every supplied converter (and every generated one) is added to the graph, unconditionally
 	if fb := c.P.MustRole("funcBuilder"); fb != nil {
 		supplied, generated := false, false
